@@ -1,27 +1,38 @@
-PROP = {
-        "modules": ["Discv5Model.Props.C17", "Discv5Model.Props.C17Service", "Discv5Model.Props.C17Connectivity"],
-        "lemma_modules": ["Discv5Model.Proofs.IpVoteLemmas", "Discv5Model.Proofs.ConnectivityLemmas"],
-        "engines": [{"name": "ipvote", "quick": 1000, "thorough": 30000}, {"name": "service", "quick": 80, "thorough": 1500}, {"name": "service", "quick": 24, "thorough": 300, "model": False, "profile": "C17expiry"}],
-        "rule": "ipvote engine: each case = one IpVote (minimum 2..6) driven by a vote sequence (voter, address) with "
-                "majority() compared after (almost) every insert: random walks over a small voter population and 2-5 "
-                "IPv4 / 2-3 IPv6 addresses; leader with n votes (n = minimum, minimum+1, random <= 40, or one of the "
-                "counts 45/85/165/175/... where binary64 differs from (7n+5)/10) against a rival walking over "
-                "thr(n)-2..thr(n)+1 and voters changing their vote back and forth; minimum-1 liars voting repeatedly; "
-                "dual-stack interleavings; three-way ties broken step by step; 1 in 40 cases in real time (vote "
-                "duration 100 ms, clock steps 60 ms) for expiry. Always-run corpus case: threshold mirror vs real f64 "
-                "for all n <= 10^6 and thresholds derived from majority() for n <= 400. "
-                "non-trivial = a majority() call that returned an address, or returned none with an address at/over "
-                "the minimum blocked by a rival, or one vote below the minimum",
-        "nontrivial": [("ipvote", "vmaj.some4"), ("ipvote", "vmaj.some6"), ("ipvote", "vmaj.none-competing"),
-                       ("ipvote", "vmaj.none-one-below-minimum")],
-        "trusted_base": ["record signing / size check / sequence overflow of set_udp_socket are the enr crate's (abstract setOk in the model)",
-                         "std::time::Instant is monotone; the timed cases keep a 40 ms margin between model clock and real time (drift measured, case re-executed when exceeded)"],
-        "assumptions": ["hash-map iteration order abstract: theorems hold for every permutation at every call",
-                        "the service-side step (pongStep: eligibility, dual-stack rule, record update, event) is proved in Lean and tied to the code by the scripted-service engine; this engine ties IpVote itself",
-                        "f64 threshold mirrored bit-exactly in integer arithmetic (thrF64); theorems stated for abstract thr with hypothesis thr n <= n, proved for thrF64 for all n"],
-        "engine": "ipvote",
-    "design_ref": "DESIGN.md section 5 / C17",
-    "technique": "Lean 4 theorems (majority_spec, order independence, update_needs_majority, few_liars, seq_increases) over an executable model of IpVote and of handle_ip_vote_from_pong + differential correspondence run against the real IpVote with an independent recount monitor",
-    "level_text": "Proof: for every vote sequence, minimum, clock and hash-map visiting order, majority() returns an address iff it has at least the minimum of unexpired latest votes and every rival is below the binary64 threshold round(count*(1.0-0.3)) (mirrored bit-exactly, shown <= count for all n); a PONG step changes the record only to such an address, with seq+1 and one SocketUpdated event; fewer voters than the minimum can never move it over any history. The model is tied to /repo by regenerated constants (0.3, the threshold expression) and a differential run against the real IpVote on every check.",
-    "level_note": "Trusted: Lean kernel, extract.py, harness/driver; enr crate for signature/seq of the record (abstract success flag). The tie model<->code is a sampled differential check (plus thresholds derived from majority() for n<=400 and an f64 sweep to 10^6), not a proof. The service-side step is tied to the code by the scripted-service engine.",
-}
+PROP = {'modules': ['Discv5Model.Props.C17', 'Discv5Model.Props.C17Service', 'Discv5Model.Props.C17Connectivity'],
+ 'lemma_modules': ['Discv5Model.Proofs.IpVoteLemmas', 'Discv5Model.Proofs.ConnectivityLemmas'],
+ 'engines': [{'name': 'ipvote', 'quick': 1000, 'thorough': 30000},
+             {'name': 'service', 'quick': 80, 'thorough': 1500},
+             {'name': 'service', 'quick': 24, 'thorough': 300, 'model': False, 'profile': 'C17expiry'}],
+ 'rule': 'ipvote engine: each case = one IpVote (minimum 2..6) driven by a vote sequence (voter, address) with majority() compared after (almost) every '
+         'insert: random walks over a small voter population and 2-5 IPv4 / 2-3 IPv6 addresses; leader with n votes (n = minimum, minimum+1, random <= 40, or '
+         'one of the counts 45/85/165/175/... where binary64 differs from (7n+5)/10) against a rival walking over thr(n)-2..thr(n)+1 and voters changing their '
+         'vote back and forth; minimum-1 liars voting repeatedly; dual-stack interleavings; three-way ties broken step by step; 1 in 40 cases in real time '
+         '(vote duration 100 ms, clock steps 60 ms) for expiry. Always-run corpus case: threshold mirror vs real f64 for all n <= 10^6 and thresholds derived '
+         'from majority() for n <= 400. non-trivial = a majority() call that returned an address, or returned none with an address at/over the minimum blocked '
+         'by a rival, or one vote below the minimum',
+ 'nontrivial': [('ipvote', 'vmaj.some4'), ('ipvote', 'vmaj.some6'), ('ipvote', 'vmaj.none-competing'), ('ipvote', 'vmaj.none-one-below-minimum')],
+ 'trusted_base': ["record signing / size check / sequence overflow of set_udp_socket are the enr crate's (abstract setOk in the model)",
+                  'std::time::Instant is monotone; the timed cases keep a 40 ms margin between model clock and real time (drift measured, case re-executed '
+                  'when exceeded)'],
+ 'assumptions': ['hash-map iteration order abstract: theorems hold for every permutation at every call',
+                 'the service-side step (pongStep: eligibility, dual-stack rule, record update, event) is proved in Lean and tied to the code by the '
+                 'scripted-service engine; this engine ties IpVote itself',
+                 'f64 threshold mirrored bit-exactly in integer arithmetic (thrF64); theorems stated for abstract thr with hypothesis thr n <= n, proved for '
+                 'thrF64 for all n'],
+ 'engine': 'ipvote',
+ 'design_ref': 'DESIGN.md section 5 / C17',
+ 'technique': 'Lean 4 theorems (majority_spec, order independence, update_needs_majority, few_liars, seq_increases) over an executable model of IpVote and of '
+              'handle_ip_vote_from_pong + differential correspondence run against the real IpVote with an independent recount monitor + Lean 4 model of the '
+              'connectivity state composed with the service model (gate in front of the vote path, revocation timer), tied by the service engine',
+ 'level_text': 'Proof: for every vote sequence, minimum, clock and hash-map visiting order, majority() returns an address iff it has at least the minimum of '
+               'unexpired latest votes and every rival is below the binary64 threshold round(count*(1.0-0.3)) (mirrored bit-exactly, shown <= count for all '
+               'n); a PONG step changes the record only to such an address, with seq+1 and one SocketUpdated event; fewer voters than the minimum can never '
+               'move it over any history. The model is tied to /repo by regenerated constants (0.3, the threshold expression) and a differential run against '
+               'the real IpVote on every check. Also (Props/C17Connectivity.lean, Model/Connectivity.lean): the connectivity state composed with the service '
+               "model - a PONG of a family whose votes are not admitted changes nothing; the record changes only in a due timer step (exactly that family's "
+               'socket goes, seq + 1) or in a PONG that reaches the vote path while the family is admitted; after a failed connectivity test the family stays '
+               'blocked for six hours whatever else happens; the wait for incoming sessions ends only by the timer or the second incoming session. The service '
+               'driver executes this composition (sessions, PONGs, idle periods that let the timers run out).',
+ 'level_note': 'Trusted: Lean kernel, extract.py, harness/driver; enr crate for signature/seq of the record (abstract success flag). The tie model<->code is a '
+               'sampled differential check (plus thresholds derived from majority() for n<=400 and an f64 sweep to 10^6), not a proof. The service-side step '
+               'is tied to the code by the scripted-service engine.'}
